@@ -933,6 +933,23 @@ func runSessionLife(c *Ctx) {
 			if be, ok := ast.Unparen(e).(*ast.BinaryExpr); ok && be.Op == token.GTR && strings.HasPrefix(types.ExprString(be.X), "len(") {
 				return "size-checked", false, true
 			}
+			// `limits.maxMessageBytes > 0 && len(message) > limits.maxMessageBytes`: the false edge means no limit, or within it
+			if be, ok := ast.Unparen(e).(*ast.BinaryExpr); ok && be.Op == token.LAND {
+				sizeAtom, other := false, false
+				for _, a := range Implied(be, true) {
+					b2, ok := ast.Unparen(a.E).(*ast.BinaryExpr)
+					switch {
+					case ok && a.Val && b2.Op == token.GTR && strings.HasPrefix(types.ExprString(b2.X), "len("):
+						sizeAtom = true
+					case ok && a.Val && b2.Op == token.GTR && types.ExprString(b2.Y) == "0" && strings.Contains(types.ExprString(b2.X), "maxMessageBytes"):
+					default:
+						other = true
+					}
+				}
+				if sizeAtom && !other {
+					return "size-checked", false, true
+				}
+			}
 			return "", false, false
 		}},
 	}}
